@@ -256,7 +256,6 @@ static void sem_test(void) {
 }
 
 /* ---- once: racing callers, one run ---- */
-#define NO 8
 #define GUARDS 200
 static uv_once_t guards[GUARDS]; static volatile int once_runs_[GUARDS]; static int once_cur;
 static uv_barrier_t once_bar;
@@ -270,6 +269,45 @@ static void once_racer(void* arg) {
     uv_barrier_wait(&once_bar);
   }
 }
+#define NO 8
+/* ---- once: nobody returns from uv_once while the init function is still running ----
+ * 8 threads race on a fresh guard; the init function waits until all of them have arrived at
+ * their uv_once call (counted just before the call), lingers 30 ms, and sets a flag at its
+ * very end; every thread must find the flag set when its uv_once returns. */
+#define SLOW_GUARDS 3
+static uv_once_t slow_guards[SLOW_GUARDS];
+static int slow_cur;
+static volatile int slow_arrived, slow_done[SLOW_GUARDS], slow_runs[SLOW_GUARDS], slow_early;
+static uv_barrier_t slow_bar;
+static void slow_init_fn(void) {
+  uint64_t t0 = uv_hrtime();
+  __atomic_add_fetch(&slow_runs[slow_cur], 1, __ATOMIC_SEQ_CST);
+  while (__atomic_load_n(&slow_arrived, __ATOMIC_SEQ_CST) < NO && uv_hrtime() - t0 < WATCHDOG_NS) uv_sleep(1);
+  uv_sleep(30);
+  __atomic_store_n(&slow_done[slow_cur], 1, __ATOMIC_SEQ_CST);
+}
+static void slow_racer(void* arg) {
+  int g; (void) arg;
+  for (g = 0; g < SLOW_GUARDS; g++) {
+    if (uv_barrier_wait(&slow_bar)) { slow_cur = g; slow_arrived = 0; }
+    uv_barrier_wait(&slow_bar);
+    __atomic_add_fetch(&slow_arrived, 1, __ATOMIC_SEQ_CST);
+    uv_once(&slow_guards[g], slow_init_fn);
+    if (!__atomic_load_n(&slow_done[g], __ATOMIC_SEQ_CST)) __atomic_add_fetch(&slow_early, 1, __ATOMIC_SEQ_CST);
+    uv_barrier_wait(&slow_bar);
+  }
+}
+static void once_slow_test(void) {
+  uv_thread_t th[NO]; int i, bad = 0; uv_once_t init = UV_ONCE_INIT;
+  for (i = 0; i < SLOW_GUARDS; i++) slow_guards[i] = init;
+  uv_barrier_init(&slow_bar, NO);
+  for (i = 0; i < NO; i++) uv_thread_create(&th[i], slow_racer, NULL);
+  for (i = 0; i < NO; i++) uv_thread_join(&th[i]);
+  for (i = 0; i < SLOW_GUARDS; i++) if (slow_runs[i] != 1) bad++;
+  uv_barrier_destroy(&slow_bar);
+  printf("once_returned_while_init_running=%d once_slow_guards_not_run_exactly_once=%d ", slow_early, bad);
+}
+
 static void once_test(void) {
   uv_thread_t th[NO]; int i, bad = 0; uv_once_t init = UV_ONCE_INIT;
   for (i = 0; i < GUARDS; i++) guards[i] = init;
@@ -359,6 +397,7 @@ int main(void) {
   mutex_test();
   sem_test(); gate_failed = 0;
   once_test();
+  once_slow_test();
   barrier_test();
   key_join_test();
   cond_test(0); gate_failed = 0;
